@@ -5458,29 +5458,53 @@ func (a *Agent) forwardShellClientData(streamID uint64, nextHop identity.AgentID
 			return // Adapter closed
 		}
 
-		// Encrypt data before sending
-		encryptedData, err := sessionKey.Encrypt(data)
-		if err != nil {
-			a.logger.Error("failed to encrypt shell client data",
-				logging.KeyStreamID, streamID,
-				logging.KeyError, err)
-			adapter.Close()
-			return
-		}
+		for _, msg := range splitShellClientMessage(data) {
+			// Encrypt data before sending
+			encryptedData, err := sessionKey.Encrypt(msg)
+			if err != nil {
+				a.logger.Error("failed to encrypt shell client data",
+					logging.KeyStreamID, streamID,
+					logging.KeyError, err)
+				adapter.Close()
+				return
+			}
 
-		frame := &protocol.Frame{
-			Type:     protocol.FrameStreamData,
-			StreamID: streamID,
-			Payload:  encryptedData,
-		}
-		if err := a.peerMgr.SendToPeer(nextHop, frame); err != nil {
-			a.logger.Debug("shell client send error",
-				logging.KeyStreamID, streamID,
-				logging.KeyError, err)
-			adapter.Close()
-			return
+			frame := &protocol.Frame{
+				Type:     protocol.FrameStreamData,
+				StreamID: streamID,
+				Payload:  encryptedData,
+			}
+			if err := a.peerMgr.SendToPeer(nextHop, frame); err != nil {
+				a.logger.Debug("shell client send error",
+					logging.KeyStreamID, streamID,
+					logging.KeyError, err)
+				adapter.Close()
+				return
+			}
 		}
 	}
+}
+
+// splitShellClientMessage cuts an oversized STDIN message into several STDIN
+// messages so that each one still fits into a single frame after encryption
+// (the remote decrypts frame by frame and frames above MaxPayloadSize cannot
+// be sent at all). Messages that fit, and message types other than STDIN
+// (which are small by construction), are passed through unchanged.
+func splitShellClientMessage(data []byte) [][]byte {
+	const maxMessage = protocol.MaxPayloadSize - crypto.EncryptionOverhead
+	if len(data) <= maxMessage || data[0] != shell.MsgStdin {
+		return [][]byte{data}
+	}
+	var out [][]byte
+	for payload := data[1:]; len(payload) > 0; {
+		n := len(payload)
+		if n > maxMessage-1 {
+			n = maxMessage - 1
+		}
+		out = append(out, shell.EncodeStdin(payload[:n]))
+		payload = payload[n:]
+	}
+	return out
 }
 
 // cleanupShellClientStream cleans up a shell client stream.
